@@ -307,6 +307,14 @@ impl Property for C13 {
             meta,
         }
     }
+    fn probes(&self, case: &Case, _rec: &RunRecord) -> BTreeMap<String, u64> {
+        let mut m = BTreeMap::new();
+        m.insert(format!("family_{}", case.scenario.family), 1);
+        if case.scenario.rules.iter().any(|(_, r)| r.stmts.iter().any(|s| matches!(s, crate::dsl::Stmt::Out { mode: crate::dsl::OutMode::LinkDir(_), .. }))) {
+            m.insert("target_is_symlink_to_directory".into(), 1);
+        }
+        m
+    }
     fn check(&self, case: &Case, rec: &RunRecord, _obs: &dyn Observer) -> Vec<Violation> {
         let mut v = Vec::new();
         let target = case.meta["target"].as_str().unwrap().to_string();
